@@ -1070,14 +1070,9 @@ def c10_21(ctx):
     return out
 
 
-def c10_22(ctx):
-    """The global map round trip, evaluated: PSBT.parse over the bytes PSBT.serialize's layout produces for a global map with (a) two xpubs of
-    different masters, (b) two different xpubs of the same master (one signer holding two accounts -- create_multisig_psbt allows it), (c) unknown
-    key-value pairs, one with an empty value; the parse must accept and re-serialising the parsed object must give the same bytes.  The unsigned
-    transaction, the xpub record codec and the constructor's validation are stand-ins (C10.1/C10.2/C08 decide them)"""
-    from sa.cells import ClassRef, Evaluator, FileStandIn, Obj, Raised, Undecided
-    spec_p, spec_s = "psbt:PSBT.parse", "psbt:PSBT.serialize"
-    mod, fn = rl.get(ctx, spec_p)
+def _global_map_harness():
+    """stand-ins shared by the global-map cells: the unsigned transaction, the xpub record codec and the PSBT constructor"""
+    from sa.cells import Obj
     TX = b"\x02\x00\x00\x00\x00\x00\x00\x00\x00\x00"
 
     def kv(k, v):
@@ -1098,6 +1093,18 @@ def c10_22(ctx):
              ("NamedHDPublicKey", "serialize"): lambda o: kv(o.attrs["key"], o.attrs["val"]),
              ("PSBT", "__init__"): lambda o, tx_obj, psbt_ins, psbt_outs, hd_pubs=None, extra_map=None, network="mainnet", *a, **k: o.attrs.update(
                  {"tx_obj": tx_obj, "psbt_ins": psbt_ins, "psbt_outs": psbt_outs, "hd_pubs": hd_pubs or {}, "extra_map": extra_map or {}, "network": network})}
+    return TX, kv, xpub, hooks
+
+
+def c10_22(ctx):
+    """The global map round trip, evaluated: PSBT.parse over the bytes PSBT.serialize's layout produces for a global map with (a) two xpubs of
+    different masters, (b) two different xpubs of the same master (one signer holding two accounts -- create_multisig_psbt allows it), (c) unknown
+    key-value pairs, one with an empty value; the parse must accept and re-serialising the parsed object must give the same bytes.  The unsigned
+    transaction, the xpub record codec and the constructor's validation are stand-ins (C10.1/C10.2/C08 decide them)"""
+    from sa.cells import ClassRef, Evaluator, FileStandIn, Obj, Raised, Undecided
+    spec_p, spec_s = "psbt:PSBT.parse", "psbt:PSBT.serialize"
+    mod, fn = rl.get(ctx, spec_p)
+    TX, kv, xpub, hooks = _global_map_harness()
     FP1, FP2 = b"\xaa\xbb\xcc\xdd", b"\x11\x22\x33\x44"
     maps = [
         ("two xpubs of different masters", [xpub(1, FP1), xpub(2, FP2)], []),
@@ -1166,6 +1173,23 @@ def c10_23(ctx):
 
 
 
+def _parse_keys_by(ctx):
+    """(key PSBT.parse stores one global xpub under, that xpub's raw_serialize()) -- PSBT.parse evaluated on a global map with one xpub record, with the
+    stand-ins of the global-map cells; None when the parser is outside the evaluator's subset or does not store exactly one entry"""
+    from sa.cells import ClassRef, Evaluator, FileStandIn, Obj, Raised, Undecided
+    TX, kv, xpub, hooks = _global_map_harness()
+    k, v = xpub(1, b"\xaa\xbb\xcc\xdd")
+    data = b"psbt\xff" + kv(b"\x00", TX) + kv(k, v) + b"\x00"
+    try:
+        obj = Evaluator(ctx.repo, method_hooks=hooks).call("psbt:PSBT.parse", [FileStandIn(data)], self_obj=ClassRef("psbt", "PSBT"))
+    except (Raised, Undecided):
+        return None
+    hd = obj.attrs.get("hd_pubs") if isinstance(obj, Obj) else None
+    if not isinstance(hd, dict) or len(hd) != 1:
+        return None
+    return next(iter(hd)), k[1:]
+
+
 def c10_24(ctx):
     """SIBLING map key: every producer of the global-xpub map (`hd_pubs`: PSBT.parse, create_multisig_psbt, anything else in the anchored modules
     that stores into a dictionary of that name) keys an entry by the same function of the entry.  PSBT.combine unites two such maps by key and
@@ -1196,9 +1220,26 @@ def c10_24(ctx):
     ref = next(((m, q, st, sh) for m, q, st, sh in sites if q == "PSBT.parse"), None)
     if ref is None:
         raise AnalysisError("hd_pubs producers: PSBT.parse does not store into hd_pubs")
+    evaluated = None
+    if ref[3] is None and any(sh == "raw_serialize()" for _, _, _, sh in sites):
+        evaluated = _parse_keys_by(ctx)
     for m, q, st, sh in sites:
         spec = "%s:%s" % (m, q)
         mod = ctx.repo.modules[m]
+        if evaluated is not None and (q == "PSBT.parse" or sh == "raw_serialize()"):
+            k_parse, k_method = evaluated
+            if k_parse == k_method:
+                out.append(ctx.ok(spec, "global-xpub map: the key PSBT.parse stores an xpub under, evaluated, is its raw_serialize() (%d bytes), as in the other producers" % len(k_method), st,
+                                  mod, key="hd-pubs-key:" + q))
+            elif q == "PSBT.parse":
+                out.append(ctx.bad(spec, "PSBT.parse, evaluated on a global map with one xpub, stores it under a %s key (%s…) while %s key it by <key>.raw_serialize() (%d bytes, %s…): "
+                                         "combining a built PSBT with a parsed copy keeps both entries of every xpub, and the combined PSBT is serialised with duplicate global xpub records"
+                                   % ("%d-byte" % len(k_parse) if isinstance(k_parse, bytes) else type(k_parse).__name__, k_parse[:4].hex() if isinstance(k_parse, bytes) else k_parse,
+                                      ", ".join(sorted("%s:%s" % (m2, q2) for m2, q2, _, s2 in sites if s2 == "raw_serialize()")), len(k_method), k_method[:4].hex()), st, mod,
+                                   key="hd-pubs-key:" + q))
+            else:
+                out.append(ctx.ok(spec, "global-xpub map keyed by <key>.raw_serialize() (the disagreement is reported at PSBT.parse)", st, mod, key="hd-pubs-key:" + q))
+            continue
         if sh is None or ref[3] is None:
             out.append(ctx.err(spec, "global-xpub map store `%s` is not keyed by a method of the stored key" % ast.unparse(st), st, mod))
         elif sh == ref[3]:
